@@ -200,3 +200,39 @@ Definition case_signature (c : obs_case) : N * N * N * N * N * N :=
   | Ok l => (v, 0%N, bucket (List.length (oc_lines c)), bucket (List.length l), bucket used, pol)
   | Err e => (v, err_code e, bucket (List.length (oc_lines c)), 0%N, 0%N, pol)
   end.
+
+(* ---- several groups in one configuration text: what config.New decoded vs model vs spec ---- *)
+Definition param_eqb (a b : param) : bool := ((p_key a =? p_key b) && (p_val a =? p_val b))%bool.
+Definition func_eqb (a b : func) : bool :=
+  ((f_name a =? f_name b) && Bool.eqb (f_not a) (f_not b) && list_eqb param_eqb (f_params a) (f_params b))%bool.
+Definition policy_raw_eqb (a b : policy_raw) : bool :=
+  match a, b with
+  | PRString x, PRString y => x =? y
+  | PRFunc x, PRFunc y => func_eqb x y
+  | PRFuncs x, PRFuncs y => list_eqb func_eqb x y
+  | PROther, PROther => true
+  | _, _ => false
+  end.
+Definition group_decl_eqb (a b : group_decl) : bool :=
+  ((g_name a =? g_name b)
+   && list_eqb (list_eqb func_eqb) (g_filter a) (g_filter b)
+   && list_eqb (list_eqb param_eqb) (g_anno a) (g_anno b)
+   && match g_policy a, g_policy b with
+      | Some x, Some y => policy_raw_eqb x y
+      | None, None => true
+      | _, _ => false
+      end)%bool.
+
+Record multi_case := mkMulti {
+  mc_sections : list (string * list group_item);   (* the group sections as written, in order *)
+  mc_impl : list group_decl                        (* conf.Group as decoded by config.New *)
+}.
+
+(* codes 17 impl decode <> model decode  18 impl decode <> spec (each group = its own items)
+         19 model decode <> spec *)
+Definition check_multi (m : multi_case) : list N :=
+  let md := decode_groups (mc_sections m) in
+  let sd := map spec_group_decl (mc_sections m) in
+  (if list_eqb group_decl_eqb md (mc_impl m) then [] else [17%N])
+  ++ (if list_eqb group_decl_eqb sd (mc_impl m) then [] else [18%N])
+  ++ (if list_eqb group_decl_eqb md sd then [] else [19%N]).
